@@ -275,7 +275,15 @@ func (r *icRun) render() {
 		b.WriteString("\n")
 		body := fmt.Sprintf("App_%s:\n    Ep:\n        step %s\n\nShared:\n    Log:\n        visited %s\n", f, f, f)
 		if kind == "body" {
-			switch rng.Intn(3) {
+			switch rng.Intn(7) {
+			case 3: // content cut short inside an application header: the only syntax error is at end of input
+				body += fmt.Sprintf("\nOther_%s", f)
+			case 4:
+				body += fmt.Sprintf("\nOther_%s [~x", f)
+			case 5:
+				body += fmt.Sprintf("\nOther_%s [~x, y=\"abc\"]", f)
+			case 6:
+				body += fmt.Sprintf("\nOther_%s [~x, y=\"abc\"]:", f)
 			case 0: // truncated content
 				body = fmt.Sprintf("App_%s:\n    Ep:\n        step %s\n\nShared:\n    Lo", f, f)
 			case 1:
